@@ -352,49 +352,80 @@ inductive Reach (now spur : Nat) : St → Prop
 
 end Monitor
 
-/-! ## Thread (Thread.cpp): start / join over pthread_create / pthread_join.
-    Thread object `j` creates the thread with id `j`. -/
+/-! ## Thread (Thread.cpp, Thread.hpp): start (both overloads) / join / ~Thread over pthread_create / pthread_join.
+    Thread object `j` creates the thread with id `j`.  A thread function is identified by a body number `k`; it returns
+    `val k` (a parameter of the system).  `start(proc, param)` hands the body to pthread_create directly; the
+    member-function overload `start(obj, &X::f)` (Thread.hpp) stores a functor in the Thread object (`func j`) and creates
+    a thread that reads that functor when it begins to run — which is why `func` must not be overwritten while the
+    object holds a thread (the test `if(thread) return false` comes first, fixes/sync/0002). -/
 namespace Thr
 
-inductive Op | start (j : Tid) | join (j : Tid) | dtor (j : Tid)
+inductive Op
+  | start (j : Tid) (k : Nat)     -- thr[j].start(proc_k, param)
+  | mstart (j : Tid) (k : Nat)    -- thr[j].start(obj_k, &X::f)
+  | join (j : Tid) | dtor (j : Tid)
 deriving DecidableEq, Repr
 
-inductive Pc | idle | create (j : Tid) | join (j : Tid) | dtor (j : Tid)
+/-- `create j none`: pthread_create(proc<Func0>, &this->func) of the member overload; `create j (some k)`: pthread_create(proc_k, param) -/
+inductive Pc | idle | create (j : Tid) (direct : Option Nat) | join (j : Tid) | dtor (j : Tid)
 deriving DecidableEq, Repr
 
-inductive Status | none | created | running | finished (v : Nat)
+/-- `created b`: the thread exists and has not begun; `b = some k` — its function is body k, `b = none` — it will read
+    the functor of its Thread object.  `running k`: it executes body k.  `finished v`: its function returned v. -/
+inductive Status | none | created (b : Option Nat) | running (k : Nat) | finished (v : Nat)
 deriving DecidableEq, Repr
 
-/-- extra actions of this system: a created thread begins to run, a running thread's function returns `v` -/
+/-- extra actions of this system: a created thread begins to run, a running thread's function returns -/
 inductive Act
   | api (a : Sync.Act Op)
   | begin_
-  | exit (v : Nat)
+  | exit
 
 structure St where
   /-- `Thread::thread != 0` of Thread object j -/
   handle : Tid → Bool
+  /-- `Thread::func` of Thread object j: the body number of the stored functor -/
+  func : Tid → Nat
   status : Tid → Status
   pc : Tid → Pc
   ret : Tid → Option Val
   /-- how often pthread_create may still fail (EAGAIN); an arbitrary parameter -/
   cfail : Nat
+  /-- ghost: the body handed over by the successful start of object j (for the member overload: the functor stored in
+      the object at the moment of the pthread_create) -/
+  started : Tid → Option Nat
 
 def init (cfail : Nat := 0) : St :=
-  ⟨fun _ => false, fun t => if t = 0 then .running else .none, fun _ => .idle, fun _ => none, cfail⟩
+  ⟨fun _ => false, fun _ => 0, fun t => if t = 0 then .running 0 else .none, fun _ => .idle, fun _ => none, cfail,
+   fun t => if t = 0 then some 0 else none⟩
 
 def done (s : St) (t : Tid) (v : Val) : St := { s with pc := upd s.pc t .idle, ret := upd s.ret t (some v) }
 
-def step (s : St) (t : Tid) : Act → Option St
-  | .begin_ => if s.status t = .created then some { s with status := upd s.status t .running } else none
-  | .exit v =>
-    if s.status t = .running ∧ s.pc t = .idle ∧ v < 4294967296 then some { s with status := upd s.status t (.finished v) } else none
+def Status.isRunning : Status → Bool
+  | .running _ => true
+  | _ => false
+
+def step (val : Nat → Nat) (s : St) (t : Tid) : Act → Option St
+  | .begin_ =>           -- proc<T>(&this->func) → t->call(): the functor is read when the thread begins
+    match s.status t with
+    | .created (some k) => some { s with status := upd s.status t (.running k) }
+    | .created none => some { s with status := upd s.status t (.running (s.func t)) }
+    | _ => none
+  | .exit =>
+    match s.status t with
+    | .running k =>
+      if s.pc t = .idle ∧ val k < 4294967296 then some { s with status := upd s.status t (.finished (val k)) } else none
+    | _ => none
   | .api (.tick _) => some s
   | .api (.call op) =>
-    if s.status t = .running ∧ s.pc t = .idle then
+    if (s.status t).isRunning = true ∧ s.pc t = .idle then
       match op with
-      | .start j =>      -- if(thread) return false;
-        if s.handle j then some (done s t (.bool false)) else some { s with ret := upd s.ret t none, pc := upd s.pc t (.create j) }
+      | .start j k =>    -- if(thread) return false;
+        if s.handle j then some (done s t (.bool false))
+        else some { s with ret := upd s.ret t none, pc := upd s.pc t (.create j (some k)) }
+      | .mstart j k =>   -- if(thread) return false; this->func = Func0(obj, ptr); return start(&proc<Func0>, &this->func);
+        if s.handle j then some (done s t (.bool false))
+        else some { s with ret := upd s.ret t none, func := upd s.func j k, pc := upd s.pc t (.create j none) }
       | .join j =>       -- if(!thread) return 0;
         if s.handle j then some { s with ret := upd s.ret t none, pc := upd s.pc t (.join j) } else some (done s t (.num 0))
       | .dtor j =>       -- Thread::~Thread(): if(thread) join();
@@ -403,10 +434,11 @@ def step (s : St) (t : Tid) : Act → Option St
   | .api (.run alt) =>
     match s.pc t with
     | .idle => none
-    | .create j =>
+    | .create j b =>
       if alt = 0 then      -- pthread_create(...) == 0; this->thread = handle; return true
         if s.status j = .none then
-          some (done { s with status := upd s.status j .created, handle := upd s.handle j true } t (.bool true))
+          some (done { s with status := upd s.status j (.created b), handle := upd s.handle j true,
+                              started := upd s.started j (some (b.getD (s.func j))) } t (.bool true))
         else none
       else if alt = 1 then -- pthread_create(...) != 0: return false (no thread, `thread` stays 0)
         if s.cfail > 0 then some (done { s with cfail := s.cfail - 1 } t (.bool false)) else none
@@ -422,9 +454,9 @@ def step (s : St) (t : Tid) : Act → Option St
       | .finished _ => some (done { s with handle := upd s.handle j false } t .unit)
       | _ => none
 
-inductive Reach (cfail : Nat) : St → Prop
-  | init : Reach cfail (init cfail)
-  | step {s s' t a} : Reach cfail s → step s t a = some s' → Reach cfail s'
+inductive Reach (val : Nat → Nat) (cfail : Nat) : St → Prop
+  | init : Reach val cfail (init cfail)
+  | step {s s' t a} : Reach val cfail s → step val s t a = some s' → Reach val cfail s'
 
 end Thr
 
